@@ -56,6 +56,11 @@ theorem check_run_ok_sess (rest : HypDec) (hr : rest.NP) (hre : rest.E3) (p : Pr
     Sess.checkSess eof (Sess.runSess (decP3 p rest) p c est chunks eof) = .ok :=
   Sess.checkSess_run_ok (decP3 p rest) (decP3_NP p hr) (decP3_E3 p hre) p c est chunks eof
 
+/-- RTR session stream (the real client loop fed hostile bytes): the checker accepts every run of the model -/
+theorem check_run_ok_rtr_sess (chunks : List Bytes) (eof : Bool) :
+    Sess.checkRtrSess eof (Sess.runRtrSess chunks eof) = .ok :=
+  Sess.checkRtrSess_run_ok chunks eof
+
 /-- the session checker rejects: a task that does not come back, a busy task, two NOTIFICATIONs, a NOTIFICATION
     without closing, a session kept after the peer closed, a grown receive buffer -/
 theorem nonvacuous_sess :
